@@ -181,6 +181,19 @@ def main(tier, replay=None):
         print('replay: observed %s, least sound bound %s -> %s' % (got, d['need'], 'VIOLATION' if bad else 'holds'))
         return 1 if bad else 0
     known = common.load_known('C07')
+    # translator validation: the complete native table of the 23 transfer functions (compiled code) against the
+    # reference bound; any cell below the bound must also be reported by the solver-based parts below
+    native_bad = []
+    for fn in INFIX_FNS:
+        for x in range(4):
+            for y in range(4):
+                got = native_degree('infix', fn, [x, y]); rep.validated += 1
+                if not got.isdigit() or int(got) < simp(ref_infix(KIND_OF.get(fn, 'Other'), z3.IntVal(x), z3.IntVal(y))): native_bad.append((fn, x, y, got))
+    for fn in PREFIX_FNS:
+        for x in range(4):
+            got = native_degree('prefix', fn, [x]); rep.validated += 1
+            if not got.isdigit() or int(got) < simp(ref_prefix(KIND_OF.get(fn, 'Other'), z3.IntVal(x))): native_bad.append((fn, x, None, got))
+    rep.extra['native_table_cells_below_bound'] = native_bad
     # K1: Kani
     failed = run_kani('degree::', rep, KANI_HARNESSES)
     pr = prog()
@@ -236,6 +249,8 @@ def main(tier, replay=None):
                 rep.violations.append(rep.save_replay(role, data)); common.log('VIOLATION detail:', desc)
     if rep.nonrepro and not rep.violations:
         rep.inconclusive.append('%d solver models did not reproduce natively, e.g. %s' % (len(rep.nonrepro), json.dumps(rep.nonrepro[0], default=str)[:300]))
+    if native_bad and not rep.violations and not rep.known_hits:
+        rep.inconclusive.append('native table has cells below the reference bound that no solver-based part reported: %s' % native_bad[:3])
     if NAT: NAT.close()
     rep.bounds = {'degrees': 'all 4 degrees, all ranges, all 20 infix + 3 prefix opcodes (finite space, covered completely by the solver)', 'kani_unwind': 'none needed (loop-free)'}
     rep.assumptions = ['reference = least sound bound: +,- max; * sum capped; / by constant keeps degree; unary - identity; everything else constant iff all operands constant',
